@@ -49,8 +49,10 @@ LoopIterOk(s, N, rule, met) ==
 LoopIterFail(s, N, rule) ==
   [s EXCEPT !.failedAt = s.iter, !.pc = "done", !.converged = Status(s, rule, N, s.iter, FALSE)]
 
-\* the step after the loop (only solvers that have one) raises: the iterate is kept, the run is not converged
-PostEnabled(s) == s.pc = "done" /\ s.failedAt = -1 /\ ~s.postFailed
+\* the step after the loop (only solvers that have one) raises: the iterate is kept, the run is not converged.
+\* The code runs that step after EVERY exit of the loop - also after an iteration failed (Bregman recovers the pressure
+\* from whatever flux the loop left; that solve is singular where the flux vanishes) - so it is enabled then, too.
+PostEnabled(s) == s.pc = "done" /\ ~s.postFailed
 LoopPostFail(s, rule) == [s EXCEPT !.postFailed = TRUE, !.converged = IF rule = "postignored" THEN s.converged ELSE FALSE]
 
 \* the same solver object is called once more
